@@ -270,6 +270,12 @@ Definition struct_kwS (run : routine -> pv -> MC (res pv)) (fields : list (nat *
        | k => ret (if unhashable rt k then Raise EType else Ok kw)
        end)) kvs (ret (Ok [])).
 
+(* hash-as-produced (Core.hashing / Core.elem_conv) with the caches in the way *)
+Definition hashingS {A B : Type} (key : B -> pv) (f : A -> MC (res B)) (x : A) : MC (res B) :=
+  bndR (f x) (fun y => ret (hash_check rt key y)).
+Definition elem_convS (k : seqkind) (f : pv -> MC (res pv)) : pv -> MC (res pv) :=
+  if hashes k then hashingS (fun v => v) f else f.
+
 (* Build.run with the caches in the way: serdes.load consults _strload's memo, a Delayed proxy resolves its
    target through unmarshaller(t) / marshaller(t), i.e. through the factory memo.  (The proxy also keeps what it
    resolved in its own slot _resolved; that slot holds a value the factory returned, the model asks the factory
@@ -285,11 +291,11 @@ Fixpoint runS (d : bool) (fuel : nat) (r : routine) (x : pv) {struct fuel} : MC 
       | RNoOp => ret (Ok x)
       | RSeq k r' =>
           bndR (loadS x) (fun dd => bndR (ret (itervalues rt dd)) (fun vs =>
-          bndR (mapMS (runS d n r') vs) (fun rs => ret (construct_seq rt k rs))))
+          bndR (mapMS (elem_convS k (runS d n r')) vs) (fun rs => ret (construct_seq rt k rs))))
       | RMap k rk rv =>
           bndR (loadS x) (fun dd => bndR (ret (iteritems rt E dd)) (fun kvs =>
-          bndR (mapMS (fun kv => bndR (runS d n rk (fst kv)) (fun k' =>
-                                 bndR (runS d n rv (snd kv)) (fun v' => ret (Ok (k', v'))))) kvs)
+          bndR (mapMS (hashingS fst (fun kv => bndR (runS d n rk (fst kv)) (fun k' =>
+                                 bndR (runS d n rv (snd kv)) (fun v' => ret (Ok (k', v')))))) kvs)
                (fun rs => ret (construct_map rt k rs))))
       | RTuple rs =>
           bndR (loadS x) (fun dd => bndR (ret (itervalues rt dd)) (fun vs =>
@@ -314,8 +320,8 @@ Fixpoint runS (d : bool) (fuel : nat) (r : routine) (x : pv) {struct fuel} : MC 
       | RSeq k r' => bndR (ret (itervalues rt x)) (fun vs => bndR (mapMS (runS d n r') vs) (fun rs => ret (Ok (PSeq KList rs))))
       | RMap k rk rv =>
           bndR (ret (iteritems rt E x)) (fun kvs =>
-          bndR (mapMS (fun kv => bndR (runS d n rk (fst kv)) (fun k' =>
-                                 bndR (runS d n rv (snd kv)) (fun v' => ret (Ok (k', v'))))) kvs)
+          bndR (mapMS (hashingS fst (fun kv => bndR (runS d n rk (fst kv)) (fun k' =>
+                                 bndR (runS d n rv (snd kv)) (fun v' => ret (Ok (k', v')))))) kvs)
                (fun rs => ret (construct_map rt KDict rs)))
       | RTuple rs =>
           bndR (ret (itervalues rt x)) (fun vs =>
